@@ -322,6 +322,17 @@ impl BinCtx {
     pub fn exec(&mut self, toks: &[&str]) {
         match toks {
             ["boot", rest @ ..] => self.boot(rest),
+            ["emptydb"] => {
+                // what a first start that died right after creating the database file leaves behind: the
+                // file exists and is empty (no header, no tables)
+                let d = self.h.l1.data_dir();
+                for f in ["taskchampion-sync-server.sqlite3", "taskchampion-sync-server.sqlite3-wal", "taskchampion-sync-server.sqlite3-shm"] {
+                    let _ = std::fs::remove_file(d.join(f));
+                }
+                std::fs::write(d.join("taskchampion-sync-server.sqlite3"), b"").expect("emptydb");
+                self.h.l1.out.push("OP mark emptydb".into());
+                self.h.l1.out.push("R mark".into());
+            }
             ["bootdir", path] => {
                 // start the server on an EXISTING data directory that nothing else has opened since it
                 // was left behind (no library call of the harness touches it before the server does)
